@@ -330,17 +330,17 @@ func c16Panics(r *core.Run) {
 	roots = append(roots, p.Fn("internal/server.(*ServeMux).ServeRESP"), p.Fn("internal/server.(Handler).ServeRESP"))
 	reach := reachable(p, roots)
 	allowed := map[string]string{
-		"internal/dmap.(*DMap).lookupOnOwners":                   "empty owners list: state invariant of a bootstrapped member (the precondition rejects requests before bootstrap), not a request value",
-		"internal/dmap.(*DMap).getPartitionByHKey":               "partition kind is a compile-time constant at every call site",
-		"internal/dmap.(*DMap).deleteOnCluster":                  "empty owners list: state invariant of a bootstrapped member, not a request value",
-		"internal/dmap.(*DMap).isKeyIdle":                        "loadFragment fails only with errFragmentNotFound (handled) or a foreign type stored under a dmap.* fragment name: state invariant",
-		"internal/dmap.(*Service).scanFragmentForEviction":       "internal invariant of the eviction worker",
-		"internal/kvstore/table.(*Table).Range":                  "index/lookup disagreement inside one table under the fragment lock: state invariant",
-		"internal/cluster/partitions.(*Partition).Owner":         "empty owners list: state invariant of a bootstrapped member",
-		"internal/protocol.SetError":                             "prefix collision is a start-up (init) condition",
-		"internal/server.(*ServeMux).Handle":                     "registration-time validation, not reachable with request data",
-		"internal/server.(*ServeMux).HandleFunc":                 "registration-time validation",
-		"internal/server.(*ServeMuxWrapper).HandleFunc":          "registration-time validation",
+		"internal/dmap.(*DMap).lookupOnOwners":                           "empty owners list: state invariant of a bootstrapped member (the precondition rejects requests before bootstrap), not a request value",
+		"internal/dmap.(*DMap).getPartitionByHKey":                       "partition kind is a compile-time constant at every call site",
+		"internal/dmap.(*DMap).deleteOnCluster":                          "empty owners list: state invariant of a bootstrapped member, not a request value",
+		"internal/dmap.(*DMap).isKeyIdle":                                "loadFragment fails only with errFragmentNotFound (handled) or a foreign type stored under a dmap.* fragment name: state invariant",
+		"internal/dmap.(*Service).scanFragmentForEviction":               "internal invariant of the eviction worker",
+		"internal/kvstore/table.(*Table).Range":                          "index/lookup disagreement inside one table under the fragment lock: state invariant",
+		"internal/cluster/partitions.(*Partition).Owner":                 "empty owners list: state invariant of a bootstrapped member",
+		"internal/protocol.SetError":                                     "prefix collision is a start-up (init) condition",
+		"internal/server.(*ServeMux).Handle":                             "registration-time validation, not reachable with request data",
+		"internal/server.(*ServeMux).HandleFunc":                         "registration-time validation",
+		"internal/server.(*ServeMuxWrapper).HandleFunc":                  "registration-time validation",
 		"internal/cluster/routingtable.(*RoutingTable).fillRoutingTable": "coordinator-side invariant",
 	}
 	cnt := 0
